@@ -38,16 +38,17 @@ func TestC19Store(t *testing.T) {
 		}()
 		bdb := db.Beansdb
 		nclients := rapid.IntRange(1, 3).Draw(rt, "clients")
-		flags := []uint32{leveldb.ItemFlagKV, leveldb.ItemFlagCode, leveldb.ItemFlagAct, leveldb.ItemFlagTrie}
+		flags := []uint32{leveldb.ItemFlagKV, leveldb.ItemFlagCode, leveldb.ItemFlagAct, leveldb.ItemFlagTrie, leveldb.ItemFlagBlockHeight}
 		type plan struct {
-			flag uint32
-			keys int
-			ops  []storeOp
+			flag  uint32
+			keys  int
+			short bool // 4-byte keys, like the height index
+			ops   []storeOp
 		}
 		plans := make([]plan, nclients)
 		rewrites := 0
 		for c := range plans {
-			p := plan{flag: flags[rapid.IntRange(0, len(flags)-1).Draw(rt, "flag")], keys: rapid.IntRange(1, 3).Draw(rt, "keys")}
+			p := plan{flag: flags[rapid.IntRange(0, len(flags)-1).Draw(rt, "flag")], keys: rapid.IntRange(1, 3).Draw(rt, "keys"), short: rapid.Bool().Draw(rt, "shortKeys")}
 			for i, n := 0, rapid.IntRange(2, 25).Draw(rt, "ops"); i < n; i++ {
 				op := storeOp{read: -1}
 				for j, k := 0, rapid.SampledFrom([]int{1, 1, 2, 5, 12}).Draw(rt, "batchLen"); j < k; j++ {
@@ -71,7 +72,12 @@ func TestC19Store(t *testing.T) {
 				last := map[int][]byte{}
 				seq := 0
 				var hist []string
-				key := func(k int) []byte { return []byte(fmt.Sprintf("client%d-key%d-%s", c, k, strings.Repeat("k", 20))) }
+				key := func(k int) []byte {
+					if p.short {
+						return []byte{byte(c), byte(k), 0, 7}
+					}
+					return []byte(fmt.Sprintf("client%d-key%d-%s", c, k, strings.Repeat("k", 20)))
+				}
 				for _, op := range p.ops {
 					if len(op.batch) == 1 {
 						seq++
